@@ -1216,8 +1216,12 @@ func (w *nilWalker) learnAssign(l ast.Expr, r ast.Expr, f *facts) {
 								all = false
 								continue
 							}
+							// like everywhere in this analysis only a *known* possibly-absent argument
+							// counts; an argument of unknown provenance is the caller's responsibility
 							if ap := w.path(arg); !(ap != "" && f.nonnil[ap]) && !w.definedNonNil(arg, f) {
-								all = false
+								if ab, _ := w.absent(arg, 0); ab {
+									all = false
+								}
 							}
 						}
 						if all {
